@@ -42,14 +42,22 @@ FLAVOURS = {
     "tsan": ("plain", ["-O1", "-g1", "-fsanitize=thread"], ["-fsanitize=thread"]),
 }
 
+# TFEL's cmake wipes CMAKE_CXX_FLAGS unless USE_EXTERNAL_COMPILER_FLAGS is ON: the full flag
+# sets are therefore given here (the project's own flags, taken from a default configure,
+# plus the hook guard; the asan tree swaps the optimisation part for sanitizer flags and
+# keeps assert() enabled).
+_COMMON = ("-fvisibility-inlines-hidden -fvisibility=hidden -DTFEL_HAVE_NORETURN_ATTRIBUTE "
+           "-DLINUX64 -DUNIX64 -DTHREAD -fno-fast-math -w -D" + GUARD)
+_CCOMMON = "-DLINUX64 -DUNIX64 -DTHREAD -w -D" + GUARD
+_PLAIN = " -ftree-vectorize -march=native -DTFEL_NO_RUNTIME_CHECK_BOUNDS -O2 -DNDEBUG"
+_ASAN = " -O1 -g1 -fno-omit-frame-pointer -fsanitize=address,undefined -fno-sanitize-recover=all"
 TREE_CFG = {
-    "plain": ["-DCMAKE_BUILD_TYPE=Release",
-              "-DCMAKE_CXX_FLAGS=-D%s" % GUARD, "-DCMAKE_C_FLAGS=-D%s" % GUARD],
-    "asan": ["-DCMAKE_BUILD_TYPE=Debug",
-             "-DCMAKE_CXX_FLAGS=-D%s -O1 -g1 -UNDEBUG -fno-omit-frame-pointer "
-             "-fsanitize=address,undefined -fno-sanitize-recover=all" % GUARD,
-             "-DCMAKE_C_FLAGS=-D%s -O1 -g1 -fsanitize=address,undefined "
-             "-fno-sanitize-recover=all" % GUARD,
+    "plain": ["-DUSE_EXTERNAL_COMPILER_FLAGS=ON", "-DCMAKE_BUILD_TYPE=Release",
+              "-DCMAKE_CXX_FLAGS_RELEASE=", "-DCMAKE_C_FLAGS_RELEASE=",
+              "-DCMAKE_CXX_FLAGS=" + _COMMON + _PLAIN, "-DCMAKE_C_FLAGS=" + _CCOMMON + " -O2 -DNDEBUG"],
+    "asan": ["-DUSE_EXTERNAL_COMPILER_FLAGS=ON", "-DCMAKE_BUILD_TYPE=Release",
+             "-DCMAKE_CXX_FLAGS_RELEASE=", "-DCMAKE_C_FLAGS_RELEASE=",
+             "-DCMAKE_CXX_FLAGS=" + _COMMON + _ASAN, "-DCMAKE_C_FLAGS=" + _CCOMMON + _ASAN,
              "-DCMAKE_EXE_LINKER_FLAGS=-fsanitize=address,undefined",
              "-DCMAKE_SHARED_LINKER_FLAGS=-fsanitize=address,undefined",
              "-DCMAKE_MODULE_LINKER_FLAGS=-fsanitize=address,undefined"],
@@ -576,3 +584,48 @@ def compile_generated(cwd, libname, t="plain", flags=("-O1",), extra_sources=(),
     if r.rc != 0:
         return None, log
     return out, log
+
+
+def compile_c(name, sources, flags=(), shared=False, cc="gcc"):
+    """Small C helpers (hook library, semaphore reader...).  Cached by source content."""
+    sources = [str(s) for s in sources]
+    slot = CACHE / ("%s.c" % name)
+    slot.mkdir(parents=True, exist_ok=True)
+    out = slot / (name + (".so" if shared else ""))
+    key = sha(" ".join(flags), *[Path(s).read_bytes() for s in sources])
+    with flock(slot / "lock"):
+        kf = slot / "key"
+        if out.exists() and kf.exists() and kf.read_text() == key:
+            return out
+        cmd = [cc, "-O1", "-g"] + (["-shared", "-fPIC"] if shared else []) + list(flags) + ["-o", str(out)] + sources + ["-lpthread"]
+        r = run(cmd, timeout=300)
+        if r.rc != 0:
+            raise HarnessFailure("C compilation of %s failed:\n%s" % (name, r.err[-4000:]))
+        kf.write_text(key)
+    return out
+
+
+def hooklib():
+    return compile_c("libverifhooks", [VERIF / "harness/conc/verifhooks.c"], shared=True)
+
+
+def read_hooklog(path):
+    """-> list of (ns, pid, tid, site, id) sorted by time"""
+    ev = []
+    try:
+        for line in Path(path).read_text().splitlines():
+            p = line.split()
+            if len(p) == 5:
+                ev.append((int(p[2]), int(p[0]), int(p[1]), p[3], int(p[4])))
+    except OSError:
+        pass
+    ev.sort()
+    return ev
+
+
+import random as _random
+
+
+def rng(seed, *stream):
+    """deterministic python RNG for (seed, stream...)"""
+    return _random.Random(sha(str(seed), *[str(s) for s in stream]))
